@@ -36,8 +36,7 @@ constexpr auto adjacent_difference(InputIt first, InputIt last, OutputIt destina
 template <typename InputIt, typename OutputIt>
 constexpr auto adjacent_difference(InputIt first, InputIt last, OutputIt destination) -> OutputIt
 {
-    using value_t = typename etl::iterator_traits<InputIt>::value_type;
-    return etl::adjacent_difference(first, last, destination, etl::minus<value_t>());
+    return etl::adjacent_difference(first, last, destination, etl::minus());
 }
 
 } // namespace etl
